@@ -247,7 +247,7 @@ pub fn corpus() -> Vec<(bool, String)> {
 
 /// Size extremes (slow; a handful per run).
 fn extremes(k: u64) -> (bool, String) {
-    let s = match k % 10 {
+    let s = match k % 20 {
         0 => ".blkw xFFFF\n".repeat(2),
         1 => format!("br far\n.blkw x7FFE\nfar halt\n.blkw x7FFF\nback br far\n"),
         2 => "halt\n".repeat(65_535),
@@ -257,7 +257,19 @@ fn extremes(k: u64) -> (bool, String) {
         6 => format!("far halt\n.blkw x8000\nbr far\n"),
         7 => format!("lea r0 far\n.blkw x8001\nfar halt\n"),
         8 => format!(".blkw xFFFF\n.blkw xFFFF\n.blkw xFFFF\nhalt"),
-        _ => format!(".orig xFFFF\n.blkw xFFFE\nlast halt\n.break\n"),
+        9 => format!(".orig xFFFF\n.blkw xFFFE\nlast halt\n.break\n"),
+        // data directives around the 65,535-statement limit in every order
+        10 => ".blkw xFFFF\n.fill x1\n.fill x2\n.blkw #1\n".to_string(),
+        11 => ".blkw xFFFE\n.fill x1\n.blkw #0\n.fill x2\n.blkw x1\nhalt\n".to_string(),
+        12 => format!("{}.blkw #1\n.fill x3\n.blkw x0\n", ".fill x1\n".repeat(65_536)),
+        13 => ".blkw xFFFF\n.stringz \"ab\"\n.blkw #2\n.fill x1\n".to_string(),
+        14 => format!(".blkw xFFF0\n{}.blkw #3\n", ".fill x7\n".repeat(20)),
+        // very long runs of comment lines / blank lines / separators before and after a program
+        15 => format!("{}lea r0 msg\nputs\nhalt\nmsg .stringz \"hi\"\n", "; a comment line\n".repeat(200_000)),
+        16 => format!("halt\n{}add r0 r0\n", ";c\n".repeat(150_000)),
+        17 => format!("{}halt{}", "\n".repeat(300_000), " ,:\t\r".repeat(100_000)),
+        18 => format!("halt {}", "; x ".repeat(200_000)),
+        _ => format!("{}\nhalt\n", "lbl0 ".repeat(1) + &";\n".repeat(100_000)),
     };
     (true, s)
 }
@@ -393,7 +405,7 @@ pub fn run(o: &crate::Opts) {
         }
     }
     // size extremes: few, spread over the shards
-    let n_ext: u64 = if o.thorough { 40 } else { 10 };
+    let n_ext: u64 = if o.thorough { 40 } else { 20 };
     for k in 0..n_ext {
         if (k as usize) % o.nshards == o.shard {
             let (stack, text) = extremes(k);
@@ -458,7 +470,13 @@ pub fn run(o: &crate::Opts) {
 // C19: sequences of sources on one thread
 
 pub fn seq_request(stack: bool, reset: bool, texts: &[String]) -> String {
-    let mut s = format!("A19 {} {} {}", stack as u8, reset as u8, texts.len());
+    seq_request_n(stack, reset as u64, texts)
+}
+
+/// `resets`: 0 = no reset between the sources, k ≥ 1 = `reset_state()` called k times between them
+/// (a reset is a reset, however often it is repeated).
+pub fn seq_request_n(stack: bool, resets: u64, texts: &[String]) -> String {
+    let mut s = format!("A19 {} {:x} {}", stack as u8, resets, texts.len());
     for t in texts {
         s.push(' ');
         s.push_str(&hex(t.as_bytes()));
@@ -478,14 +496,26 @@ pub fn parse_seq_request(line: &str) -> Option<(bool, bool, Vec<String>)> {
     Some((f[1] != "0", f[2] != "0", texts))
 }
 
+fn parse_seq_resets(line: &str) -> u64 {
+    line.split_whitespace().nth(2).and_then(|h| u64::from_str_radix(h, 16).ok()).unwrap_or(1)
+}
+
 /// Assemble the texts in order on this thread (`reset` = `lace::reset_state()` before each).
 /// With `reset`, each text is also assembled on a fresh thread; a difference is appended to the
 /// element as ` !fresh <observation>` (and then disagrees with the model).
 pub fn observe_seq(runner: &mut AsmRunner, stack: bool, reset: bool, texts: &[String]) -> String {
+    observe_seq_n(runner, stack, reset as u64, texts)
+}
+
+pub fn observe_seq_n(runner: &mut AsmRunner, stack: bool, resets: u64, texts: &[String]) -> String {
+    let reset = resets > 0;
     // start from a clean table, like a new process
     lace::reset_state();
     let mut parts = Vec::new();
     for t in texts {
+        for _ in 1..resets {
+            lace::reset_state();
+        }
         let mut obs = runner.observe(stack, t, reset);
         if reset {
             let t2 = t.clone();
@@ -547,7 +577,8 @@ pub fn run_seq(o: &crate::Opts) {
         for line in std::fs::read_to_string(path).unwrap().lines() {
             match parse_seq_request(line) {
                 Some((stack, reset, texts)) => {
-                    let obs = observe_seq(&mut runner, stack, reset, &texts);
+                    let n = if reset { parse_seq_resets(line).max(1) } else { 0 };
+                    let obs = observe_seq_n(&mut runner, stack, n, &texts);
                     sink.put(line, &obs);
                 }
                 None => sink.put(line, "bad-request"),
@@ -560,6 +591,17 @@ pub fn run_seq(o: &crate::Opts) {
     let mut by_len = [0u64; 7];
     let (mut with_reset, mut without_reset, mut fresh_diffs, mut elems, mut failed_elems) = (0u64, 0u64, 0u64, 0u64, 0u64);
     let mut samples: Vec<String> = Vec::new();
+    // very many resets between two sources (counters of resets must not wrap into an old state):
+    // a label defined by the first source, possibly a failing one, must be gone for the second
+    if o.shard == 3 % o.nshards {
+        for k in [2u64, 255, 256, 257, 65_535, 65_536, 65_537, 131_072] {
+            for first in ["keep halt\n", "keep halt\nbad add r0\n"] {
+                let texts: Vec<String> = vec![first.into(), "lea r0 keep\nhalt\n".into(), "keep .fill x1\n".into(), "br keep\n".into()];
+                let obs = observe_seq_n(&mut runner, false, k, &texts);
+                sink.put(&seq_request_n(false, k, &texts), &obs);
+            }
+        }
+    }
     // histories containing a program with thousands of labels (a table that has grown large must
     // be emptied by the reset like any other), followed by sources that redefine / reference /
     // forward-reference some of its names
